@@ -198,6 +198,11 @@ def run(check, an: Analysis):
             check.instance('Q', '__child_finished__:failed->__cancel__', called,
                            where_fn(finished.fn), 'a failing child cancels its scope',
                            path=rules.path_lines(path))
+    _scope.check_child_failure_recorded(check, an, 'Q')
+    # the first failure aborts *all* remaining children, on every way out of the block
+    from . import c04
+    c04.check_copy_iteration(check, an, 'Q')
+    c04.check_close_on_every_exit(check, an, 'Q', [SCOPE])
     cancel = an.callee(SCOPE, '__cancel__')
     n_sched = 0
     for path in an.paths(cancel):
